@@ -5,6 +5,7 @@ package props
 import (
 	"fmt"
 	"math/big"
+	"strings"
 	"testing"
 
 	"github.com/db47h/decimal"
@@ -520,7 +521,11 @@ func TestC07Grid(t *testing.T) {
 
 const ruleC07 = "kernel half: rapid-generated calls of the 12 decimal kernels and divWVW through the hook exports, within the call-site preconditions only (words < 10^19, dividend high word < divisor, shift 0..18): vector lengths 0..70 (all residues mod 4, the >=5-word copy fast paths), words from {0,1,10^19-1,5*10^18,10^k,10^k-1,2^32,2^63-1,...} in runs plus uniform, low-end carry/borrow chains with a chosen terminator position, scalar operands from the same sets, destination fresh (poisoned), equal to x, equal to y, or overlapping x inside one array the way dec.shl/dec.shr call it. Oracle: assembly output == portable twin output (vector and carry/borrow/remainder) and both == the big.Int definition. The grid shift 0..18 x length 0..70 x {fresh, in place, overlap 1, overlap 3} for shl/shr and length x carry-dies-at x {fresh, in place} for add10VW/sub10VW is enumerated completely on every run. Non-trivial = length >= 5, or shift != 0, or an aliased destination. Program half: see samples of kind 'program' (same public operation sequence executed by three builds: default, decimal_pure_go, decimal_pure_go+math_big_pure_go; per-step snapshots compared)."
 
-var propC07 = &h.Prop[C07Case]{ID: "C07", Rule: ruleC07, Gen: genC07, Check: checkC07, Matchers: map[string]func(C07Case) bool{}}
+var propC07 = &h.Prop[C07Case]{ID: "C07", Rule: ruleC07, Gen: genC07, Check: checkC07, Matchers: map[string]func(C07Case) bool{},
+	Filter: func(path string) bool { return !strings.Contains(path, "prog-") }}
 
-func TestC07(t *testing.T)       { propC07.Search(t) }
-func TestC07Replay(t *testing.T) { propC07.Replay(t) }
+func TestC07(t *testing.T) { propC07.Search(t) }
+func TestC07Replay(t *testing.T) {
+	propC07.Replay(t)
+	propC07Prog.Replay(t)
+}
